@@ -19,7 +19,7 @@ import (
 // background goroutine takes is a choice of the explorer too: the checks are built against a copy of
 // roundtimer.go whose selects poll their cases in a harness-chosen order first (harness/tools/selxform), so
 // both outcomes of "cancel signal and expired timer ready" or "cancel signal and new request ready" are really
-// executed. Only if that rewrite is not possible (VerifSelectCount == 0) the older ready-set analysis is used.
+// executed. Only if that rewrite is not possible (VerifSelectCountRoundtimer == 0) the older ready-set analysis is used.
 
 type fixedTimeouts struct{}
 
@@ -85,7 +85,7 @@ func runTimerSchedule(prog []string, prefix []int, res *vx.Result, outcomes map[
 	ctx, cancel := context.WithCancel(context.Background())
 	defer cancel()
 	s := vx.NewThreads(ctx, prefix)
-	controlled := tmstate.VerifSelectCount > 0
+	controlled := tmstate.VerifSelectCountRoundtimer > 0
 	redundantAt := -1
 	if controlled {
 		var asked struct {
@@ -108,8 +108,8 @@ func runTimerSchedule(prog []string, prefix []int, res *vx.Result, outcomes map[
 				redundantAt = len(s.Points)
 			}
 			res.Count("select_case_taken:"+name+"="+fmt.Sprint(i), 1)
-		})
-		defer tmstate.VerifSetSelectHooks(func(string, int) []int { return nil }, func(string, int) {})
+		}, nil)
+		defer tmstate.VerifSetSelectHooks(nil, nil, nil)
 	}
 
 	bgCtx := s.Adopt("bg")
